@@ -677,11 +677,37 @@ class WriterTable:
         return 'OTHER<%s|%s>' % (pre, suf)
 
 
+def yields_as_lists(fn):
+    """a generator that yields (element, rank) pairs, read as the function that appends to two lists and returns them"""
+    import copy
+    ys = [n for n in ast.walk(fn) if isinstance(n, ast.Yield)]
+    if not ys or any(not (isinstance(y.value, ast.Tuple) and len(y.value.elts) == 2) for y in ys):
+        return fn
+    if any(isinstance(n, ast.Return) and n.value is not None for n in ast.walk(fn)) or any(isinstance(n, ast.YieldFrom) for n in ast.walk(fn)):
+        return fn
+    fn = copy.deepcopy(fn)
+    class T(ast.NodeTransformer):
+        def visit_Expr(self, node):
+            if isinstance(node.value, ast.Yield):
+                a, b = node.value.value.elts
+                mk = lambda name, v: ast.Expr(value=ast.Call(func=ast.Attribute(value=ast.Name(id=name, ctx=ast.Load()), attr='append', ctx=ast.Load()), args=[v], keywords=[]))
+                return [ast.copy_location(mk('__elems__', a), node), ast.copy_location(mk('__ranks__', b), node)]
+            return self.generic_visit(node)
+    fn = T().visit(fn)
+    doc = [fn.body[0]] if (fn.body and isinstance(fn.body[0], ast.Expr) and isinstance(fn.body[0].value, ast.Constant)) else []
+    rest = fn.body[len(doc):]
+    init = [ast.Assign(targets=[ast.Name(id=n_, ctx=ast.Store())], value=ast.List(elts=[], ctx=ast.Load())) for n_ in ('__elems__', '__ranks__')]
+    ret = ast.Return(value=ast.Tuple(elts=[ast.Name(id='__elems__', ctx=ast.Load()), ast.Name(id='__ranks__', ctx=ast.Load())], ctx=ast.Load()))
+    fn.body = doc + init + rest + [ret]
+    ast.fix_missing_locations(fn)
+    return fn
+
+
 class ReaderTable:
     """(in_tie, token decoration) -> (k_before_emit, total_inc, in_tie', problems)"""
     def __init__(self, func, decorations, resolver=None):
         self.func = func
-        fn = fuse_two_pass(func.node)
+        fn = fuse_two_pass(yields_as_lists(func.node))
         params = [a.arg for a in fn.args.args]
         self.tokp = params[0]
         loop = find_loop(fn)
